@@ -200,9 +200,8 @@ def r12_3(ctx):
     if fdo:
         p_it = fdo.param_index_by_name("raw_output")
         for (b, bb, t) in C.all_call_sites(lib, lambda ns, t: fdo.name in ns):
-            lv = C.trace(b, t["args"][p_it - 1], transparent=lambda tt: C.is_transparent(tt) or C.callee_name(tt) in (
-                "std::iter::Iterator::skip", "std::slice::<impl [T]>::iter", "std::iter::Iterator::take", "std::iter::Iterator::peekable"),
-                through_fields=True)
+            lv = C.trace(b, t["args"][p_it - 1], transparent=lambda tt: C.is_transparent(tt) or T.item_preserving(C.callee_name(tt)),
+                         through_fields=True)
             ok = bool(lv)
             for l in lv:
                 if leaf_is_call(l, LINES):
@@ -227,8 +226,7 @@ def r12_3(ctx):
                 else:
                     ctx.violation([fdo.name, "sep", nm], "format_directive_output joins with a separator that is not IOCtx.line_ending", site=ctx.site(fdo, bb))
             elif nm == PUSH_STR:
-                lv = C.trace(fdo, t["args"][1], through_fields=True, transparent=lambda tt: C.is_transparent(tt) or C.callee_name(tt).endswith("Iterator>::next")
-                             or C.callee_name(tt).endswith("Iterator::next") or C.callee_name(tt).endswith("::into_iter"))
+                lv = C.trace(fdo, t["args"][1], through_fields=True, transparent=lambda tt: C.is_transparent(tt) or T.item_preserving(C.callee_name(tt)))
                 if _sep_ok(fdo, t["args"][1]):
                     ctx.ok("format_directive_output: pushed separator is line_ending", site=ctx.site(fdo, bb))
                 elif lv and all(l.kind == "param" and l.data in (p_ws, p_it) for l in lv):
@@ -254,13 +252,7 @@ def r12_3(ctx):
                 if nm in ("std::string::String::push",) or nm.endswith("::insert_str") or nm.endswith("::extend"):
                     ctx.violation([rle.name, "extra-push", nm], "replace_line_ending builds its result with %s" % nm, site=ctx.site(rle, bb))
                 continue
-            lv = C.trace(rle, t["args"][1], through_fields=True, transparent=lambda tt: C.is_transparent(tt) or C.callee_name(tt) in (
-                "std::slice::<impl [T]>::last", "<std::slice::Iter<'a, T> as std::iter::Iterator>::next", "std::iter::Iterator::collect",
-                "std::iter::Iterator::peekable", "std::iter::Iterator::skip", "std::iter::Iterator::by_ref",
-                "<I as std::iter::IntoIterator>::into_iter", "std::iter::IntoIterator::into_iter",
-                "std::slice::iter::<impl std::iter::IntoIterator for &'a [T]>::into_iter",
-                "<std::vec::Vec<T, A> as std::ops::Index<I>>::index", "std::slice::<impl [T]>::iter") or
-                C.callee_name(tt).endswith("Iterator>::next") or C.callee_name(tt).endswith("Iterator::next"))
+            lv = C.trace(rle, t["args"][1], through_fields=True, transparent=lambda tt: C.is_transparent(tt) or T.item_preserving(C.callee_name(tt)))
             ok = bool(lv) and all(leaf_is_call(l, LINES) or (l.kind == "param" and rle.local_name(l.data) == "line_ending") for l in lv)
             if ok:
                 ctx.ok("replace_line_ending pushes a lines() item or line_ending", site=ctx.site(rle, bb))
